@@ -216,6 +216,20 @@ def run(chk):
                 bad = [nm for nm in ("U", "D") + (("V",) if kind == "jfa" else ()) if not close(getattr(a, nm), getattr(o, nm), rtol=1e-7)]
                 if bad:
                     chk.fail("%s training depends on %s (%s differ)" % (kind.upper(), what, bad), dict(ctx, kind=kind, sample_perm=[int(q) for q in ps], class_perm=[int(q) for q in cp]))
+            # the same samples in another order, held in a Dask bag whose partitions have unequal sizes (3, 1, 2): the model is a function of the
+            # labelled multiset, whatever the container and its partitioning
+            try:
+                parts_ = [[stats[k] for k in ps[:3]], [stats[ps[3]]], [stats[k] for k in ps[4:]]]
+                with dask.config.set(scheduler="synchronous"):
+                    d_ = fa.make_machine(kind, copy.deepcopy(ubm), 2, 2, em_iterations=2, random_state=seed).fit(
+                        dask.bag.from_delayed([dask.delayed(list)(p_) for p_ in parts_]), [int(q) for q in y[ps]])
+                chk.count(1, key=("perm, uneven bag", kind))
+                bad = [nm for nm in ("U", "D") + (("V",) if kind == "jfa" else ()) if not close(getattr(a, nm), getattr(d_, nm), rtol=1e-7)]
+                if bad:
+                    chk.fail("%s trained from the same labelled samples in another order, held in a Dask bag with partitions of 3, 1 and 2 items, differs from the list-trained model (%s differ)"
+                             % (kind.upper(), bad), dict(ctx, kind=kind, sample_perm=[int(q) for q in ps], partition_sizes=[3, 1, 2]))
+            except Exception as e:
+                chk.fail("%s.fit on a Dask bag with partitions of 3, 1 and 2 items raises %r" % (kind.upper(), e), dict(ctx, kind=kind))
         pw = g.permutation(len(yw))
         cw = g.permutation(3)
         W0 = np.asarray(WCCN().fit(Xw, yw).weights)
